@@ -321,6 +321,21 @@ void sim_sched_point(void)
 	switch_to(me, choose());
 }
 
+void sim_switch_to_task(int id)
+{
+	struct sim_task *me = tls_task;
+
+	if (!me || id < 0 || id >= G.ntasks || &G.tasks[id] == me)
+		return;
+	struct sim_task *t = &G.tasks[id];
+
+	if (t->state != T_RUNNABLE)
+		return;
+	me->guards_since = 0;
+	count_step();
+	switch_to(me, t);
+}
+
 enum sim_wake_reason sim_block(enum sim_wait_kind kind, const void *obj, uint64_t deadline_ns, int cancellable)
 {
 	struct sim_task *me = tls_task;
